@@ -137,6 +137,8 @@ def main():
     ap.add_argument("--selfcheck", action="store_true")
     ap.add_argument("--keep-events", action="store_true")
     ap.add_argument("--no-evidence", action="store_true")
+    ap.add_argument("--digests", nargs=2, type=int, metavar=("START", "COUNT"),
+                    help="print per-run digests as JSON (determinism self-test)")
     args = ap.parse_args()
     reexec_pinned()
     if args.selfcheck:
@@ -150,6 +152,11 @@ def main():
 
     tier = args.tier if args.tier in ("quick", "thorough") else "quick"
     seed = int(os.environ.get("VERIF_SEED", "0"))
+    if args.digests:
+        workers = int(os.environ.get("VERIF_WORKERS", "1"))
+        print(json.dumps(engine.digests(prop, tier, seed, args.digests[0], args.digests[1],
+                                        workers)))
+        return 0
     t0 = time.time()
     print("check %s tier=%s VERIF_SEED=%d src=%s" % (prop, tier, seed, engine.REPO), flush=True)
     machine, agg = engine.explore(prop, tier, seed)
